@@ -556,3 +556,95 @@ def acc5(cfg):
     if '-stats-' in cfg.name:
         res.floor('plain stores into olc_db counters', 5)
     return res
+
+
+def acc6(cfg):
+    """ACC-6: every counter is decremented the way it is incremented"""
+    import re as _re
+    res = RuleResult('ACC-6', 'node counts and memory use move symmetrically: decrement_inode_count<N> / decrement_leaf_count / decrease_memory_use are the exact mirror images of their increment counterparts - same counter slot (constant index), same amount (sizeof of the same node class resp. the leaf size argument), ++ vs --, += vs -=, fetch_add vs fetch_sub - and the slots of leaf, I4, I16, I48, I256 are pairwise distinct; otherwise the reported numbers drift with the history of the index instead of being a function of the key set')
+    if '-stats-' not in cfg.name:
+        res.note('statistics are compiled out in this configuration')
+        return res
+
+    def sig(f, o, depth=0):
+        e = f.strip_casts(o)
+        if not isinstance(e, dict) or depth > 10:
+            return '?'
+        k = e.get('k')
+        if k == 'this':
+            return 'this'
+        if k == 'int':
+            return str(e.get('v'))
+        if k == 'sizeof':
+            return 'sizeof(%s)' % _re.sub(r'<.*', '', e.get('of') or '?').replace('olc_', '')
+        if k == 'member':
+            return sig(f, e['base'], depth + 1) + '.' + e.get('name', '?')
+        if k == 'ref':
+            if 'cv' in e:
+                return '#%s' % e['cv']
+            if e.get('vk') == 'param':
+                for i, p in enumerate(f.params):
+                    if p['did'] == e['did']:
+                        return 'p%d' % i
+            return e.get('name', '?')
+        if k == 'call':
+            ob = sig(f, e['obj'], depth + 1) + '.' if e.get('obj') is not None else ''
+            args = [sig(f, a, depth + 1) for a in e.get('args', [])]
+            args = [a for a in args if not a.startswith('#') or e.get('name') == 'operator[]']     # drop memory_order constants
+            return '%s%s(%s)' % (ob, e.get('name'), ','.join(args))
+        return k or '?'
+    MIRROR = {'++': '--', '+=': '-=', 'fetch_add': 'fetch_sub', 'increase_memory_use': 'decrease_memory_use'}
+
+    def events(f):
+        ev = []
+        for b, i, e in f.elements():
+            if is_assert_elem(e):
+                continue
+            if e.get('k') == 'unop' and e.get('op') in ('++', '--'):
+                ev.append((e['op'], sig(f, e['sub']), ''))
+            elif e.get('k') == 'binop' and e.get('op') in ('+=', '-='):
+                ev.append((e['op'], sig(f, e['l']), sig(f, e['r'])))
+            elif e.get('k') == 'call' and e.get('name') in ('fetch_add', 'fetch_sub') and e.get('obj') is not None:
+                ev.append((e['name'], sig(f, e['obj']), sig(f, e['args'][0]) if e.get('args') else ''))
+            elif e.get('k') == 'call' and e.get('name') in ('increase_memory_use', 'decrease_memory_use'):
+                ev.append((e['name'], 'this', sig(f, e['args'][0]) if e.get('args') else ''))
+        return ev
+    PAIRS = [('increment_inode_count', 'decrement_inode_count'), ('increment_leaf_count', 'decrement_leaf_count'), ('increase_memory_use', 'decrease_memory_use')]
+    byname = {}
+    for f in cfg.functions:
+        if f.blocks and f.cls.startswith(('unodb::db<', 'unodb::olc_db<')) and '::iterator' not in f.cls and any(f.short in p for p in PAIRS):
+            # instantiation key: class + template argument of the member template (the node class)
+            targ = _re.search(r'(increment|decrement)_inode_count<(.*)>\(', f.sig)
+            node = _re.search(r'inode_(4|16|48|256)', targ.group(2)).group(0) if targ and _re.search(r'inode_(4|16|48|256)', targ.group(2)) else ''
+            byname[(f.cls, f.short, node)] = f
+    slots = {}
+    for (cls, short, node), f in sorted(byname.items()):
+        for inc, dec in PAIRS:
+            if short != inc:
+                continue
+            g = byname.get((cls, dec, node))
+            if g is None:
+                # decrement counterparts that are never instantiated are nobody's problem
+                continue
+            res.count('increment / decrement pairs')
+            res.functions.add(f.sig)
+            res.functions.add(g.sig)
+            ei, ed = events(f), events(g)
+            want = [(MIRROR.get(op, op), tgt, amt) for op, tgt, amt in ei]
+            ok = bool(ei) and sorted(want) == sorted(ed)
+            flavor = ('olc_db' if cls.startswith('unodb::olc_db') else 'db') + ('/u64' if _re.match(r'unodb::\w+<(unsigned long|std::uint64_t)', cls) else '/key_view')
+            res.ob(ok, {'rule': 'ACC-6', 'pair': '%s %s / %s %s' % (flavor, inc, dec, node), 'increment': ei, 'decrement': ed, 'verdict': 'mirror images' if ok else 'VIOLATION'})
+            if not ok:
+                res.find(g, g.loc, '%s %s%s is not the mirror image of %s: it does %s where the increment did %s - the counter no longer returns to its old value when a node is created and later freed' % (flavor, dec, ('<' + node + '>') if node else '', inc, ed, ei), key='ACC-6:%s:%s' % (dec, node), config=cfg.name)
+            if short in ('increment_inode_count', 'increment_leaf_count'):
+                for op, tgt, amt in ei:
+                    if 'node_counts' in tgt:
+                        slots.setdefault((cls,), {})[node or 'leaf'] = tgt
+    for (cls,), m in slots.items():
+        vals = list(m.values())
+        ok = len(set(vals)) == len(vals)
+        res.ob(ok, {'rule': 'ACC-6', 'class': sh(cls)[:50], 'slots': m, 'verdict': 'pairwise distinct' if ok else 'VIOLATION'})
+        if not ok:
+            res.find(None, None, 'two node classes of %s count into the same slot of node_counts: %s' % (sh(cls)[:50], m), key='ACC-6:slots', config=cfg.name)
+    res.floor('increment / decrement pairs', 12)
+    return res
